@@ -121,6 +121,20 @@ CLAIMED = {
          'b2 >= 0 for the Ledoit-Wolf intensity is a hypothesis of the range theorem; np.linalg.inv is modelled by validated exact '
          'Gauss-Jordan; ill-conditioned inputs (zero variances, singular covariances for precisions) are not generated.',
          'DESIGN.md section 7, C14'),
+ 'C15': ('Coq proofs over R: the accumulated self / cross similarities of the pair loop are <mean,mean>/P for any repetition counts, '
+         'hence unbalanced = balanced euclidean; missing channels skipped; condensed index injective; refutation witnesses for the '
+         'compiled engine\'s recorded defects + in-Coq correspondence of calc_rdm_unbalanced / calc_one_similarity',
+         'Theorems: sum of halved (i,i) and all (i<j) dot products over n^2 P / 2 equals <mean,mean>/P, the cross sums give '
+         '<mean_a,mean_b>/P, so self_a+self_b-2cross_ab is the squared distance of the condition means / P for ANY repetition counts; a '
+         'channel missing in one observation contributes to no product involving it and the euclid/poisson kernels depend on the valid '
+         'pairs only; zero accumulated weight gives NaN; the engine\'s condensed index is strictly increasing in row-major pair order. '
+         'C15_equal_weighting_refuted / C15_correlation_nan_refuted exhibit the two known findings on the faithful model. '
+         'Correspondence: all six methods, both weightings, NaN patterns, folds of any label type, against the exact model of the '
+         'compiled engine; equality with calc_rdm where theory demands it is checked by the oracle.',
+         'Cython is absent: similarity.pyx cannot be rebuilt, the check only verifies that the source lines embedded in similarity.c '
+         'match the .pyx; mahalanobis with NaN channels is not generated (undefined behaviour); known findings F24, F25 are reported '
+         'as KNOWN-FINDING lines.',
+         'DESIGN.md section 7, C15'),
 }
 NA_REASON = 'check not built yet in this round (work in progress; see DESIGN.md section 7)'
 
